@@ -36,7 +36,9 @@ def offTokens : Off → List Token
   | .hhmm sp neg h m => spT sp ++ [[sgn neg], dtok [h / 10, h, m / 10, m]]
   | .hhcmm sp neg h m => spT sp ++ [[sgn neg], dtok [h / 10, h], [':'], dtok [m / 10, m]]
 
-/-- `tz.UTC`, or the local zone when the process zone is itself called UTC (documented order) -/
+/-- `tz.UTC`, or `tzlocal()` when the process zone is itself called UTC (the order `_build_tzaware` tests in).
+    NOTE: `.localZone` carries no offset — a zone CALLED `UTC` need not be at offset zero (`TZ=UTC+3`), so this row
+    does not say "offset zero" (known finding D-C02-local-zone-named-utc; `C02.offDescr_carries_offset`). -/
 def utcOrLocal (tznames : List Token) : TzDescr :=
   if tznames.contains ['U', 'T', 'C'] then .localZone ['U', 'T', 'C'] else .utc
 
